@@ -33,6 +33,12 @@ def build():
     core_kernel.add_core_items(u)
     common.add_decimal(u)
     idx = runner.load_sources(('fpdec',))['fpdec']
+    u.item('fpdec', 'errors::enum DecimalError')
+    # coefficient-level helpers with an explicit (profile independent) overflow panic
+    u.fn('fpdec', 'binops::add_sub::add', C(ok=[('C20.add.explicit_overflow_panic', 'in_i128(x + y)')],
+                                            post=[('add.value', 'r == x + y')]))
+    u.fn('fpdec', 'binops::add_sub::sub', C(ok=[('C20.sub.explicit_overflow_panic', 'in_i128(x - y)')],
+                                            post=[('sub.value', 'r == x - y')]))
     G.add_family(u, idx, 'binops::add_sub', 'Add', 'add', op_contract('ok_add', 'spec_add'), expect=76)
     G.add_family(u, idx, 'binops::add_sub', 'Sub', 'sub', op_contract('ok_sub', 'spec_sub'), expect=76)
     G.add_op_assign(u, idx, 'binops::add_sub', 'AddAssign', 'add_assign', 'Add', 'add')
